@@ -130,7 +130,13 @@ def cases(seed, scale):
                            np.linspace(-100, 100, n), silence_level=3)
             obs = np.abs(g.standard_normal((T, n)))
             d = ClimateData(obs, grid, time_cycle=12, silence_level=3)
-            MutualInfoClimateNetwork(d, threshold=0.1, silence_level=3)
+            mi = MutualInfoClimateNetwork(d, threshold=0.1, silence_level=3)
+            for nb in (-1, 0, 1, 5):
+                try:
+                    mi._cython_calculate_mutual_information(
+                        np.array(d.anomaly()), n_bins=nb)
+                except ValueError:
+                    pass
             RainfallClimateNetwork(d, threshold=0.1, silence_level=3)
         add(f"climate networks n={n} T={T}", clim)
     # ---- funcnet ------------------------------------------------------------
@@ -231,7 +237,7 @@ def cases(seed, scale):
             for shape in ((N, T), (N, max(1, T - 1)), (max(1, N - 1), T),
                           (N + 1, T + 3)):
                 Y = g.standard_normal(shape)
-                for nb in (1, 2, 32):
+                for nb in (-1, 0, 1, 2, 32):
                     try:
                         s.test_mutual_information(X.copy(), Y, n_bins=nb)
                     except ValueError:
